@@ -127,6 +127,7 @@ impl TCheck for C01 {
                 path: dir.join("pack.jbkc"),
                 scratch: dir.clone(),
                 dedup,
+                hard_err_call: None,
             });
             let w2 = Arc::clone(&w);
             return Prepared {
@@ -139,6 +140,7 @@ impl TCheck for C01 {
                     *slot.lock().unwrap() = rep;
                 }),
                 record_events: false,
+                hard_fault: false,
             };
         }
         let comp = *rng.pick(&[
@@ -237,6 +239,7 @@ impl TCheck for C01 {
                     *slot.lock().unwrap() = rep;
                 }),
                 record_events: false,
+                hard_fault: false,
             }
         } else {
             let w = Arc::new(Work {
@@ -246,6 +249,7 @@ impl TCheck for C01 {
                 path: dir.join("pack.jbkc"),
                 scratch: dir.clone(),
                 dedup,
+                hard_err_call: None,
             });
             Prepared {
                 desc,
@@ -262,6 +266,7 @@ impl TCheck for C01 {
                     *slot.lock().unwrap() = rep;
                 }),
                 record_events: false,
+                hard_fault: false,
             }
         }
     }
